@@ -197,31 +197,20 @@ impl GraphEngine {
                 let low_u = state.low.get(&u).copied().unwrap_or(0);
                 state.low.insert(u, low_u.min(low_v));
 
-                // Check for articulation point
+                // Every child v of u with low[v] >= disc[u] closes a block: the edges pushed
+                // since (u, v) form one biconnected component. For the DFS root the condition
+                // holds for every child, so each child's block is closed here as well (blocks
+                // of different connected components never share the stack).
                 let disc_u = state.discovery.get(&u).copied().unwrap_or(0);
                 let parent_u = state.parent.get(&u).copied().flatten();
 
-                // u is an articulation point if:
-                // 1. u is root and has multiple children, or
-                // 2. u is not root and low[v] >= disc[u]
-                let should_pop = if parent_u.is_none() {
-                    if children > 1 {
+                if low_v >= disc_u {
+                    // u is an articulation point if it is not the root, or if it is the root
+                    // and has more than one child.
+                    if parent_u.is_some() || children > 1 {
                         state.articulation_points.insert(u);
-                        // Root with 2+ children: pop component for each
-                        // child after the first (last child's edges stay
-                        // on the stack and are collected at cleanup).
-                        true
-                    } else {
-                        false
                     }
-                } else if low_v >= disc_u {
-                    state.articulation_points.insert(u);
-                    true
-                } else {
-                    false
-                };
 
-                if should_pop {
                     let mut component = HashSet::new();
                     let edge = (u.min(v), u.max(v));
                     while let Some(e) = state.edge_stack.pop() {
@@ -239,18 +228,51 @@ impl GraphEngine {
                 if low_v > disc_u {
                     state.bridges.push((u.min(v), u.max(v)));
                 }
-            } else if state.parent.get(&u).copied().flatten() != Some(v) {
-                // Back edge
+            } else {
+                let disc_u = state.discovery.get(&u).copied().unwrap_or(0);
                 let disc_v = state.discovery.get(&v).copied().unwrap_or(0);
-                let low_u = state.low.get(&u).copied().unwrap_or(0);
-                if disc_v < low_u {
-                    state.low.insert(u, disc_v);
+                let is_parent = state.parent.get(&u).copied().flatten() == Some(v);
+
+                if is_parent {
+                    // The tree edge itself is not a back edge, but a second, parallel edge
+                    // to the parent is one: the pair is then not a bridge.
+                    if self.count_edges_between(u, v, config)? > 1 {
+                        let low_u = state.low.get(&u).copied().unwrap_or(0);
+                        state.low.insert(u, low_u.min(disc_v));
+                    }
+                } else if disc_v < disc_u {
+                    // Back edge to an ancestor: it belongs to the current block whether or
+                    // not it lowers low[u]. (Seen from the ancestor's side the same edge
+                    // has disc_v > disc_u and is skipped, so it is pushed once.)
+                    let low_u = state.low.get(&u).copied().unwrap_or(0);
+                    state.low.insert(u, low_u.min(disc_v));
                     state.edge_stack.push((u.min(v), u.max(v)));
                 }
             }
         }
 
         Ok(())
+    }
+
+    /// Number of edges (of the configured type) joining two distinct nodes, in either direction.
+    fn count_edges_between(&self, a: u64, b: u64, config: &BiconnectedConfig) -> Result<usize> {
+        let mut seen = HashSet::new();
+        for key in [Self::outgoing_edges_key(a), Self::incoming_edges_key(a)] {
+            for edge_id in self.get_edge_list(&key) {
+                let Ok(edge) = self.get_edge(edge_id) else {
+                    continue;
+                };
+                let joins = (edge.from == a && edge.to == b) || (edge.from == b && edge.to == a);
+                let type_ok = config
+                    .edge_type
+                    .as_deref()
+                    .is_none_or(|t| edge.edge_type == t);
+                if joins && type_ok {
+                    seen.insert(edge_id);
+                }
+            }
+        }
+        Ok(seen.len())
     }
 
     /// Get undirected neighbors (both directions).
